@@ -19,7 +19,7 @@ const void *simacc_vars_head(void);
 /* ------------------------------------------------------------------ recording handlers */
 #define NH 8
 #define MAXREC 4000
-typedef struct { int h; int kind; /* 0 text 1 BEGIN 2 END */ unsigned long sin; unsigned long sout; char text[96]; size_t tlen; uint64_t thash; } rec_t;
+typedef struct { int h; int kind; /* 0 text 1 BEGIN 2 END */ unsigned long sin; unsigned long sout; char text[96]; size_t tlen; uint64_t thash; int anytext; /* reference only: the delivered text is left open by the statement */ } rec_t;
 static rec_t got[MAXREC], want[MAXREC];
 static int ngot, nwant;
 static unsigned long tok_counter;
@@ -36,6 +36,7 @@ static void *record(int h, spif_charptr_t buff, void *state)
         if (simacc_fstate_depth() >= simacc_fstate_capacity()) sim_fail("INVARIANT(file-index<capacity)", "file stack index %d with capacity %d", simacc_fstate_depth(), simacc_fstate_capacity());
     }
     if (ngot >= MAXREC) sim_skip("too-many-handler-calls");
+    if (!buff) sim_fail("MISMATCH(line-null)", "handler %d was called without a line (NULL)", h);
     r = &got[ngot++];
     n = strlen((const char *)buff);
     r->h = h; r->sin = (unsigned long)(uintptr_t)state;
@@ -80,6 +81,7 @@ static int ref_deliver_unterminated, ref_expanded, ref_entry_fs;
 static int ref_include_capped;
 static int ref_unknown, ref_surplus_end, ref_eof_nonl, ref_include_fail, ref_overlong, ref_unreadable, ref_empty_file;
 
+static int ref_anytext;          /* the next reference call delivers a line whose text the statement leaves open (it is still delivered, once) */
 static unsigned long ref_call(int id, int kind, const char *text, unsigned long sin)
 {
     rec_t *r;
@@ -89,6 +91,7 @@ static unsigned long ref_call(int id, int kind, const char *text, unsigned long 
     r->h = ctxh[id]; r->kind = kind; r->sin = sin;
     r->tlen = strlen(text); r->thash = fnv(text, r->tlen);
     snprintf(r->text, sizeof(r->text), "%.90s", text);
+    r->anytext = ref_anytext; ref_anytext = 0;
     r->sout = ++tok_counter;
     return r->sout;
 }
@@ -162,8 +165,9 @@ static void ref_line(char *s)
         /* "values expanded": what the handler receives is the expansion of the line */
         int dc = 0;
         char *x = conf_ref_expand(s, &dc);
-        if (dc) { free(x); sim_skip("expansion-left-open-by-the-statement"); }
+        if (dc) { ref_anytext = 1; probe_hit("line_delivered_with_open_expansion"); }      /* what it expands to is left open; that it is delivered, once, to this handler, is not */
         stk[depth].state = ref_call(stk[depth].id, 0, x, stk[depth].state);
+        ref_anytext = 0;
         free(x);
         ref_expanded++;
         return;
@@ -291,7 +295,7 @@ static int compare_traces(const char *when)
         rec_t *g = &got[i], *w = &want[i];
         if (g->h != w->h || g->kind != w->kind)
             { if (compare_quiet) return 0; sim_fail("MISMATCH(dispatch)", "%s: handler call #%d went to handler %d as %s \"%.40s\", the reference delivers %s \"%.40s\" to handler %d", when, i, g->h, kn[g->kind], g->kind ? "" : g->text, kn[w->kind], w->kind ? "" : w->text, w->h); }
-        if (g->kind == 0 && (g->tlen != w->tlen || g->thash != w->thash))
+        if (g->kind == 0 && !w->anytext && (g->tlen != w->tlen || g->thash != w->thash))
             { if (compare_quiet) return 0; sim_fail("MISMATCH(line-text)", "%s: handler call #%d received \"%.60s\" (%zu chars), the reference line is \"%.60s\" (%zu chars)", when, i, g->text, g->tlen, w->text, w->tlen); }
         if (g->sin != w->sin)
             { if (compare_quiet) return 0; sim_fail("MISMATCH(state-threading)", "%s: handler call #%d (%s) received state %lu, the state it must receive is %lu", when, i, kn[g->kind], g->sin, w->sin); }
@@ -419,8 +423,9 @@ static void gen_text_line(rng_t *r)
     if (rng_chance(r, 1, 12)) { static const char *tricky[] = { "begin", "ending now", "bend", "e", "b", "End", "Begin c1", "endx" }; snprintf(t, sizeof(t), "%s", tricky[rng_below(r, 8)]); }
     else if (gen_expansions && rng_chance(r, 1, 3)) {
         /* a value that has to be expanded before it is delivered */
-        static const char *ex[] = { "v=$V1", "p ${V1}/x", "h $(HOME) t", "~/rc", "a\\tb", "q '$V1 ~' r", "d \"~ $V1\" e", "u $NOSUCH w", "m ${EMPTY}n", "k \\$V1" };
-        snprintf(t, sizeof(t), "%s", ex[rng_below(r, 10)]);
+        static const char *ex[] = { "v=$V1", "p ${V1}/x", "h $(HOME) t", "~/rc", "a\\tb", "q '$V1 ~' r", "d \"~ $V1\" e", "u $NOSUCH w", "m ${EMPTY}n", "k \\$V1",
+                                    "colour %get(fg", "x %put(k", "y %nosuch(z) w", "w [%get(nokey)]", "lone $ sign", "open ${V1" };
+        snprintf(t, sizeof(t), "%s", ex[rng_below(r, 16)]);
     }
     else if (gen_longlines && rng_chance(r, 1, 6)) {
         /* a long ordinary line: 254..257, 4095..4097 or 20478 characters */
